@@ -242,6 +242,40 @@ fn run_v2(ctx: &mut Ctx) {
                 m.extend(gen::random_bytes(&mut rng, extra));
                 v2_case(ctx, &p, &ct, &pt, &m, "append", pats[extra % pats.len()], true);
             }
+            // insertion / deletion of 1..17 octets at chunk boundaries, before the final tag and at
+            // random positions ("any change to the encrypted container")
+            {
+                let step = cs + 16;
+                let mut positions: Vec<usize> = (0..=ct.len()).step_by(step).collect();
+                positions.push(ct.len().saturating_sub(16));
+                positions.push(ct.len());
+                for _ in 0..3 {
+                    positions.push(rng.gen_range(0..=ct.len()));
+                }
+                positions.sort_unstable();
+                positions.dedup();
+                for (pi, &pos) in positions.iter().enumerate() {
+                    for k in [1usize, 15, 16, 17] {
+                        // insert random octets, and insert a copy of the final tag
+                        let mut m = ct[..pos].to_vec();
+                        m.extend(gen::random_bytes(&mut rng, k));
+                        m.extend_from_slice(&ct[pos..]);
+                        v2_case(ctx, &p, &ct, &pt, &m, "insert", pats[(pi + k) % pats.len()], true);
+                        if k == 16 && ct.len() >= 16 {
+                            let mut m = ct[..pos].to_vec();
+                            m.extend_from_slice(&ct[ct.len() - 16..]);
+                            m.extend_from_slice(&ct[pos..]);
+                            v2_case(ctx, &p, &ct, &pt, &m, "insert_tag_copy", pats[pi % pats.len()], true);
+                        }
+                        // delete k octets starting at pos
+                        if pos + k <= ct.len() {
+                            let mut m = ct[..pos].to_vec();
+                            m.extend_from_slice(&ct[pos + k..]);
+                            v2_case(ctx, &p, &ct, &pt, &m, "delete", pats[(pi + k + 1) % pats.len()], true);
+                        }
+                    }
+                }
+            }
             // chunk drop / duplicate / reorder (chunks of cs+16, final tag last)
             let step = cs + 16;
             let nchunks = (ct.len() - 16).div_ceil(step);
@@ -448,6 +482,31 @@ fn message_decrypt(msg: &[u8], sk: PlainSessionKey) -> (Vec<u8>, bool) {
 
 fn run_message(ctx: &mut Ctx) {
     let mut rng = ChaCha8Rng::seed_from_u64(ctx.seed ^ 0xC032);
+    // header octets of SEIPDv2 containers written with other chunk sizes (incl. the largest, 4 MiB):
+    // every bit of version / cipher / AEAD / chunk-size / salt octets
+    for (ci, cs) in [ChunkSize::C4MiB, ChunkSize::C2MiB, ChunkSize::C128B, ChunkSize::C4KiB].into_iter().enumerate() {
+        let pt = gen::random_bytes(&mut rng, 5 + ci);
+        let key = gen::random_bytes(&mut rng, 16);
+        let built = guarded(|| {
+            let mut b = MessageBuilder::from_bytes("", pt.clone()).seipd_v2(&mut rng, SymmetricKeyAlgorithm::AES128, [AeadAlgorithm::Ocb, AeadAlgorithm::Gcm, AeadAlgorithm::Eax][ci % 3], cs);
+            b.set_session_key(key.clone().into()).ok()?;
+            b.to_vec(&mut rng).ok()
+        });
+        let Ok(Some(msg)) = built else { continue };
+        let site = "Message::decrypt_with_session_key (SEIPDv2 container header)";
+        let sk = || PlainSessionKey::V6 { key: key.clone().into() };
+        let r = message_decrypt(&msg, sk());
+        ctx.oracle("unmodified_decrypts", site, &format!("cs={cs:?} msg={}", hx(&msg)), r.1 && r.0 == pt, &show(&r));
+        for j in 0..msg.len().min(48) {
+            for b in 0..8 {
+                let mut m = msg.clone();
+                m[j] ^= 1 << b;
+                let r = message_decrypt(&m, sk());
+                ctx.oracle("modified_never_clean_eof", site, &format!("cs={cs:?} flip@{j}.{b} msg={}", hx(&m)), !r.1, &show(&r));
+                ctx.stat("message:header_bitflip");
+            }
+        }
+    }
     let sizes = [0usize, 1, 63, 64, 65, 600];
     for (i, &n) in sizes.iter().enumerate() {
         for v2 in [false, true] {
